@@ -1,14 +1,167 @@
 (* C05 - every WARC file is a valid record sequence with correct lengths and
-   digests.  Only property theorems here, each closed by [exact]. *)
+   digests.  Only property theorems here, each closed by [exact].
+
+   [lifetime fuel O C s0 ops logblock = Some st] : a recorder with configuration
+   [C] was created in directory state [s0], received the event sequence [ops]
+   (interleaved HTTP and FTP recorder sessions, rollovers happen inside) and was
+   closed with log content [logblock]; [st] is the final state, [evs st] the
+   write_record calls in order ([e_rec] the record as serialised, [e_file] the
+   file, [e_ghost] what the session knew about the payload offset). *)
+From Coq Require Import String.
 From Coq Require Import List NArith Bool.
-From Wpull Require Import Lib.Decimal Lib.FsModel Model.Warc Proofs.WarcParse.
+From Wpull Require Import Lib.Decimal Lib.FsModel Model.Warc
+  Proofs.WarcParse Proofs.WarcSteps Proofs.WarcInv Proofs.WarcLife Proofs.WarcSess Proofs.WarcThms Proofs.WarcToy.
 Import ListNotations.
 Open Scope N_scope.
 
 (* Serialised record sequences are read back exactly by the independent strict
    WARC/1.0 reader: version line, one named field per line, empty line,
-   Content-Length bytes of block, CR LF CR LF. *)
+   Content-Length bytes of block, CR LF CR LF (decimal round trip). *)
 Theorem C05_parse_back :
   forall rs : list wrec, Forall wf_rec rs -> strict_parse (concat (map serialize rs)) = Some rs.
 Proof. exact parse_back. Qed.
 Print Assumptions C05_parse_back.
+
+(* Every record written has Content-Length = block length; with digests on, the
+   block digest is H(block) and the payload digest of a request / response record
+   is H(block minus its first [off] bytes), [off] the offset the session used. *)
+Theorem C05_lengths_digests :
+  forall fuel O C s0 ops logblock st,
+    lifetime fuel O C s0 ops logblock = Some st ->
+    Forall (fun e =>
+      fget n_clen (efields e) = Some (dec (blen (w_block (e_rec e))))
+      /\ (c_digests C = true -> fget n_bdig (efields e) = Some (v_sha1 ++ o_H O (w_block (e_rec e))))
+      /\ match e_ghost e with
+         | GPlain => True
+         | GRequest off | GResponse _ off =>
+             c_digests C = true ->
+             fget n_pdig (efields e) = Some (v_sha1 ++ o_H O (skipn (N.to_nat off) (w_block (e_rec e))))
+         | GRevisit _ off orig =>
+             w_block (e_rec e) = truncate_to off orig
+             /\ fget n_type (efields e) = Some t_revisit
+             /\ (c_digests C = true ->
+                 fget n_pdig (efields e) = Some (v_sha1 ++ o_H O (skipn (N.to_nat off) orig)))
+         end) (evs st).
+Proof. exact lengths_digests. Qed.
+Print Assumptions C05_lengths_digests.
+
+(* The payload digest of a response record covers exactly what follows the bytes
+   received before begin_response ([head], the header block as it was on the
+   wire, including interim responses), which are a prefix of the block. *)
+Theorem C05_payload_after_header :
+  forall fuel O C s0 ops logblock st,
+    lifetime fuel O C s0 ops logblock = Some st ->
+    clean_oracles O -> Forall op_clean ops ->
+    Forall (fun e => forall head off, e_ghost e = GResponse head off ->
+              exists body, w_block (e_rec e) = head ++ body
+                /\ (head <> [] -> c_digests C = true ->
+                    fget n_pdig (efields e) = Some (v_sha1 ++ o_H O body))) (evs st).
+Proof. exact payload_after_header. Qed.
+Print Assumptions C05_payload_after_header.
+
+(* A revisit record's block is exactly the header block; Content-Length and block
+   digest are those of the cut block, the payload digest that of the payload seen. *)
+Theorem C05_revisit_block :
+  forall fuel O C s0 ops logblock st,
+    lifetime fuel O C s0 ops logblock = Some st ->
+    clean_oracles O -> Forall op_clean ops ->
+    Forall (fun e => forall head off orig, e_ghost e = GRevisit head off orig ->
+              fget n_type (efields e) = Some t_revisit
+              /\ exists body, orig = head ++ body
+                /\ (head <> [] ->
+                    w_block (e_rec e) = head
+                    /\ fget n_clen (efields e) = Some (dec (blen head))
+                    /\ (c_digests C = true ->
+                        fget n_bdig (efields e) = Some (v_sha1 ++ o_H O head)
+                        /\ fget n_pdig (efields e) = Some (v_sha1 ++ o_H O body)))) (evs st).
+Proof. exact revisit_block. Qed.
+Print Assumptions C05_revisit_block.
+
+(* For inputs without CR / LF (URLs, addresses, ids, dates, digests) every record
+   written is well formed for the strict reader: each named field is one line
+   with a non-empty name without colon, names are distinct (one Content-Length),
+   WARC-Type / WARC-Date / WARC-Record-ID are present, Content-Length = |block|. *)
+Theorem C05_fields_single_line :
+  forall fuel O C s0 ops logblock st,
+    lifetime fuel O C s0 ops logblock = Some st ->
+    clean_oracles O -> Forall op_clean ops ->
+    Forall (fun e => wf_rec (e_rec e)) (evs st).
+Proof. exact records_well_formed. Qed.
+Print Assumptions C05_fields_single_line.
+
+(* Every archive file is what it held before (nothing when this recorder
+   truncated it; its old content when appending) followed by exactly one encoded
+   (gzip member or plain) serialised record per write, in order - across
+   rollovers, the meta file and appends to existing files. *)
+Theorem C05_files_are_record_sequences :
+  forall fuel O C s0 ops logblock st,
+    lifetime fuel O C s0 ops logblock = Some st ->
+    forall f, f <> cdx_name C ->
+      content (st_fs st) f
+      = kept s0 st f ++ concat (map (fun e => encode O C (e_idx e) (serialize (e_rec e))) (writes_to f (st_trace st)))
+      /\ (c_appending C = true -> kept s0 st f = content s0 f).
+Proof. exact files_are_record_sequences. Qed.
+Print Assumptions C05_files_are_record_sequences.
+
+(* Uncompressed: the file parses strictly into the old records followed by the
+   records written, whenever what was kept of the file was a valid archive. *)
+Theorem C05_archive_valid :
+  forall fuel O C s0 ops logblock st,
+    lifetime fuel O C s0 ops logblock = Some st ->
+    clean_oracles O -> Forall op_clean ops ->
+    c_compress C = false ->
+    forall f old, f <> cdx_name C -> Forall wf_rec old -> kept s0 st f = concat (map serialize old) ->
+      strict_parse (content (st_fs st) f) = Some (old ++ map e_rec (writes_to f (st_trace st))).
+Proof. exact archive_valid. Qed.
+Print Assumptions C05_archive_valid.
+
+(* Compressed: the file is a sequence of members, each holding exactly one
+   record, for any member splitter that inverts the gzip oracle. *)
+Theorem C05_one_member_per_record :
+  forall fuel O C s0 ops logblock st,
+    lifetime fuel O C s0 ops logblock = Some st ->
+    clean_oracles O -> Forall op_clean ops ->
+    forall gunz : bytes -> option (bytes * bytes),
+    (forall k m rest, gunz (o_gz O k m ++ rest) = Some (m, rest)) ->
+    (forall k m, o_gz O k m <> []) ->
+    c_compress C = true ->
+    forall f (old : list (nat * wrec)), f <> cdx_name C ->
+      Forall (fun km => wf_rec (snd km)) old ->
+      kept s0 st f = concat (map (fun km => o_gz O (fst km) (serialize (snd km))) old) ->
+      strict_members_fuel gunz (length (content (st_fs st) f)) (content (st_fs st) f)
+      = Some (map snd old ++ map e_rec (writes_to f (st_trace st))).
+Proof. exact one_member_per_record. Qed.
+Print Assumptions C05_one_member_per_record.
+
+(* Every record carries a WARC-Warcinfo-ID, and it is the WARC-Record-ID of a
+   warcinfo record written to the same file. *)
+Theorem C05_points_at_warcinfo :
+  forall fuel O C s0 ops logblock st,
+    lifetime fuel O C s0 ops logblock = Some st ->
+    Forall (fun e => exists e0 id, In e0 (evs st) /\ e_file e0 = e_file e
+                                   /\ fget n_type (efields e0) = Some t_warcinfo
+                                   /\ fget n_id (efields e0) = Some id
+                                   /\ fget n_info (efields e) = Some id) (evs st).
+Proof. exact points_at_warcinfo. Qed.
+Print Assumptions C05_points_at_warcinfo.
+
+(* Non-vacuity: a concrete lifetime (toy oracles satisfying every hypothesis
+   above; digests, CDX, log, max_size 600; an HTTP exchange interleaved with an
+   FTP session, then a revisit) runs to completion, writes 12 records into five
+   files (three rollovers and the meta file), among them a response and a
+   revisit record, plain and compressed. *)
+Example C05_nonvacuous :
+  clean_oracles toyO /\ Forall op_clean toy_ops
+  /\ (forall k m rest, toy_gunz (o_gz toyO k m ++ rest) = Some (m, rest))
+  /\ (forall k m, o_gz toyO k m <> [])
+  /\ forall compress, exists st,
+       lifetime 8 toyO (toyC compress) [] toy_ops (bs "log line") = Some st
+       /\ length (evs st) = 12%nat
+       /\ map (fun x => length (writes_to (fst x) (st_trace st))) (st_fs st) = [3; 0; 3; 3; 1; 2]%nat
+       /\ existsb (fun e => match e_ghost e with GResponse (_ :: _) _ => true | _ => false end) (evs st) = true
+       /\ existsb (fun e => match e_ghost e with GRevisit (_ :: _) _ _ => true | _ => false end) (evs st) = true.
+Proof.
+  split; [exact toy_clean_oracles|]. split; [exact toy_ops_clean|].
+  split; [exact toy_gunz_spec|]. split; [exact toy_gz_nonempty|].
+  intros [|]; eexists; (split; [vm_compute; reflexivity|]); vm_compute; repeat split.
+Qed.
